@@ -231,6 +231,9 @@ func (x *Exec) rangeRule(fr *Frame, st *State, spec *SyncMapSpec, mv mapV, fnv V
 	stA.assume(Forall([]*Term{sub}, Implies(Select(visited, sub), Select(domSet, sub))))
 	stA.assume(And(Select(domSet, key), Not(Select(visited, key))))
 	envA := mkEnv(stA, visited, key)
+	for _, u := range rs.Uses {
+		x.applyUse(envA, c, u)
+	}
 	for _, cl := range rs.Inv {
 		stA.assume(evalC(envA, cl, "invariant"))
 	}
